@@ -76,4 +76,4 @@ def parse_jsolve(line):
     from common import b2f
     x = [b2f(int(t)) for t in kv["x"].split(",")] if kv.get("x") else []
     spec = {int(t.split(":")[0]): b2f(int(t.split(":")[1])) for t in kv["spec"].split(",")} if kv.get("spec") else {}
-    return dict(exact=kv["exact"] == "1", wf=kv.get("wf") == "1", sat=kv.get("sat") == "1", nspec=int(kv["nspec"]), x=x, spec=spec)
+    return dict(exact=kv["exact"] == "1", wf=kv.get("wf") == "1", sat=kv.get("sat") == "1", piv=kv.get("piv") == "1", pad=kv.get("pad") == "1", nspec=int(kv["nspec"]), x=x, spec=spec)
